@@ -37,7 +37,8 @@ REQUIRED_MONITORS = ["component-interpolation-equals-whole", "split-indices-part
                      "coo-add", "tolocal-index-roles", "tolocal-equals-own-local-matrices", "fromlocal-roundtrip",
                      "inverse-inverts-local", "dense-equals-sparse", "dot-equals-matvec", "compositebasis-equals-composite-element",
                      "split-on-restricted-basis"]
-REQUIRED_REACH = ["rectangular-local", "vector-element", "composite-3-components", "3d-composite", "facet-tolocal"]
+REQUIRED_REACH = ["rectangular-local", "vector-element", "composite-3-components", "3d-composite", "facet-tolocal", "asm-list-with-dof-array-keyword",
+                  "vector-components-differ-from-dimension"]
 
 
 def field_parts(f):
@@ -88,6 +89,9 @@ def pick(ctx, rng, kind, k):
             and r.name in ("ElementLineP2", "ElementTriP2", "ElementTriP1B", "ElementTriCR", "ElementQuad2", "ElementQuadS2",
                            "ElementTetP2", "ElementTetCR", "ElementHex2", "ElementHexS2", "ElementTriP3")]
     recs = recs + [EL.vector(r) for r in base if kind != "line"]
+    # vector elements whose number of components differs from the dimension of the mesh
+    odd = {"line": 2, "tri": 3, "quad": 1, "tet": 2, "hex": 2}
+    recs = recs + [EL.vector(r, odd[kind]) for r in base[:2] if kind in odd]
     rec = recs[k % len(recs)]
     mc = G.first_order(rng, kind)
     tries = 0
@@ -120,6 +124,8 @@ def split_interp(ctx, k, kind):
     is_vec = rec.name.startswith("Vector(")
     if is_vec:
         ctx.reached("vector-element")
+        if elem.dim != mesh.dim():
+            ctx.reached("vector-components-differ-from-dimension")
     if hasattr(elem, "elems") and len(elem.elems) >= 3:
         ctx.reached("composite-3-components")
     if hasattr(elem, "elems") and mc.dim == 3:
@@ -255,6 +261,30 @@ def partition_sum(ctx, k, kind):
     b_sum = skfem.asm(lin, bases)
     ctx.close("partition-sum-equals-whole", b_sum, b_whole, rtol=1e-11, scale=float(np.abs(b_whole).max()) + 1e-300,
               mech="asm-list-linear", **tag)
+    # a coefficient vector passed as keyword parameter is interpolated on each basis of the list
+    xc = rng.standard_normal(basis.N)
+
+    def coef(w):
+        f = w["c"]
+        f = f[0] if isinstance(f, tuple) else f
+        a = np.array(f)
+        while a.ndim > 2:
+            a = a[0]
+        return a
+    inner = bil_from(terms, ncu)
+    formc = skfem.BilinearForm(lambda *a: (1.0 + coef(a[-1])) * inner(*a))
+    Ac = formc.assemble(basis, c=xc)
+    # equal halves: the silent case of a parameter interpolated once and reused
+    half = nt // 2
+    if half >= 1:
+        perm = rng.permutation(nt)
+        eq = [np.sort(perm[:half]).astype(np.int32), np.sort(perm[half:2 * half]).astype(np.int32)]
+        rest = np.sort(perm[2 * half:]).astype(np.int32)
+        blist = [skfem.CellBasis(mesh, rec.make(), elements=p) for p in eq + ([rest] if rest.size else [])]
+        S3 = skfem.asm(formc, blist, c=xc)
+        ctx.close("partition-sum-equals-whole", S3.toarray(), Ac.toarray(), rtol=1e-11, scale=float(np.abs(Ac).max()) + 1e-300,
+                  mech="asm-list-with-coefficient-vector-keyword", **tag)
+        ctx.reached("asm-list-with-dof-array-keyword")
     # COOData addition
     c1, c2 = form.elemental(bases[0]), form.elemental(bases[-1])
     ctx.close("coo-add", (c1 + c2).todefault().toarray(), (c1.todefault() + c2.todefault()).toarray(), rtol=1e-12, scale=scale,
